@@ -195,7 +195,20 @@ type Prog struct {
 
 // ------------------------------------------------------------------ parser
 
+// Options select deliberately *deviating* readings of a pattern. They are not
+// part of the reference semantics: callers use them to test whether a known
+// deviation model explains an observed answer (classification only).
+type Options struct {
+	// AnyClassMax > 0: `[^]` is [\0-AnyClassMax] and `[]` its complement.
+	AnyClassMax rune
+	// SplitSurrogatePairs: `\uD83D\uDE00` is two lone surrogates, not U+1F600.
+	SplitSurrogatePairs bool
+	// PropertyAsLiteral: `\p{Lu}` is the literal text "p{Lu}".
+	PropertyAsLiteral bool
+}
+
 type parser struct {
+	opt      Options
 	src      []rune
 	pos      int
 	ncap     int
@@ -203,6 +216,7 @@ type parser struct {
 	numRefs  []*Node
 	nameRefs []*Node
 	f        Features
+	pre      []*Node
 }
 
 type bail struct{ err *Error }
@@ -246,11 +260,14 @@ func (p *parser) hasPrefix(s string) bool {
 }
 
 // Parse parses a pattern in Unicode mode.
-func Parse(src string) (prog *Prog, err error) {
+func Parse(src string) (*Prog, error) { return ParseOpts(src, Options{}) }
+
+// ParseOpts is Parse under a deviation model (see Options).
+func ParseOpts(src string, opt Options) (prog *Prog, err error) {
 	if !utf8.ValidString(src) {
 		return nil, &Error{Msg: "pattern is not valid UTF-8", Unsupported: true}
 	}
-	p := &parser{src: []rune(src), names: map[string]int{}}
+	p := &parser{opt: opt, src: []rune(src), names: map[string]int{}}
 	defer func() {
 		if x := recover(); x != nil {
 			if b, ok := x.(bail); ok {
@@ -300,7 +317,10 @@ func (p *parser) disjunction() *Node {
 func (p *parser) alternative() *Node {
 	var terms []*Node
 	for !p.eof() && p.peek() != '|' && p.peek() != ')' {
-		terms = append(terms, p.term())
+		t := p.term()
+		terms = append(terms, p.pre...) // only non-empty under Options.PropertyAsLiteral
+		p.pre = nil
+		terms = append(terms, t)
 	}
 	switch len(terms) {
 	case 0:
@@ -565,6 +585,21 @@ func (p *parser) classEscape(c rune) *Set {
 	return nil
 }
 
+// propertyText consumes `{…}` after \p and returns it verbatim (PropertyAsLiteral model).
+func (p *parser) propertyText() []rune {
+	start := p.pos
+	if !p.eat('{') {
+		p.fail("invalid property name")
+	}
+	for !p.eof() && p.peek() != '}' {
+		p.pos++
+	}
+	if !p.eat('}') {
+		p.fail("invalid property name")
+	}
+	return p.src[start:p.pos]
+}
+
 var gcLong = map[string]string{
 	"Letter": "L", "Lowercase_Letter": "Ll", "Uppercase_Letter": "Lu", "Titlecase_Letter": "Lt",
 	"Modifier_Letter": "Lm", "Other_Letter": "Lo", "Mark": "M", "Combining_Mark": "M",
@@ -707,7 +742,9 @@ func (p *parser) characterEscape(c rune) rune {
 			p.pos += 2
 			if t, ok := p.hexN(4); ok && t >= 0xDC00 && t <= 0xDFFF {
 				p.f.SurrogatePair = true
-				return (v-0xD800)<<10 + (t - 0xDC00) + 0x10000
+				if !p.opt.SplitSurrogatePairs {
+					return (v-0xD800)<<10 + (t - 0xDC00) + 0x10000
+				}
 			}
 			p.pos = save
 		}
@@ -744,6 +781,16 @@ func (p *parser) atomEscape() *Node {
 		n := p.node(&Node{Kind: KBackref, Name: name})
 		p.nameRefs = append(p.nameRefs, n)
 		return n
+	}
+	if (c == 'p' || c == 'P') && p.opt.PropertyAsLiteral {
+		p.f.PropertyEscape = true
+		// a following quantifier binds to the last character only, as it would in the literal text
+		lit := []*Node{p.node(&Node{Kind: KChar, R: c})}
+		for _, r := range p.propertyText() {
+			lit = append(lit, p.node(&Node{Kind: KChar, R: r}))
+		}
+		p.pre = lit[:len(lit)-1]
+		return lit[len(lit)-1]
 	}
 	if s := p.classEscape(c); s != nil {
 		return p.node(&Node{Kind: KClass, Set: s})
@@ -782,6 +829,15 @@ func (p *parser) class() *Set {
 			p.pos--
 			p.fail("invalid class escape \\%s", string(e))
 		}
+		if (e == 'p' || e == 'P') && p.opt.PropertyAsLiteral {
+			p.f.PropertyEscape = true
+			cs := &Set{}
+			cs.addRange(e, e)
+			for _, r := range p.propertyText() {
+				cs.addRange(r, r)
+			}
+			return 0, cs
+		}
 		if cs := p.classEscape(e); cs != nil {
 			return 0, cs
 		}
@@ -817,6 +873,10 @@ func (p *parser) class() *Set {
 	}
 	if empty {
 		p.f.EmptyClass = true
+		if p.opt.AnyClassMax > 0 {
+			s.Neg = !s.Neg
+			s.addRange(0, p.opt.AnyClassMax)
+		}
 	}
 	return s
 }
